@@ -87,12 +87,15 @@ pub fn run(args: &Args) {
     let dir = args.work.join("res");
     let _ = std::fs::remove_dir_all(&dir);
     prepare_resources(&dir, &res).unwrap();
+    // every OOV provider kind is in the shared dictionary: unk.def for the categories of the test char.def, ids inside the matrix
+    std::fs::write(dir.join("unk.def"), "DEFAULT,5,5,3857,補助記号,一般,*,*,*,*\nALPHA,4,4,11633,名詞,普通名詞,一般,*,*,*\nALPHA,5,5,13620,名詞,固有名詞,一般,*,*,*\n").unwrap();
     let pos = json!(["名詞", "普通名詞", "一般", "*", "*", "*"]);
     let cfg = json!({"characterDefinitionFile": "char.def",
         "inputTextPlugin": [{"class": "com.worksap.nlp.sudachi.DefaultInputTextPlugin"},
             {"class": "com.worksap.nlp.sudachi.ProlongedSoundMarkPlugin", "prolongedSoundMarks": ["ー", "-", "〜"], "replacementSymbol": "ー"},
             {"class": "com.worksap.nlp.sudachi.IgnoreYomiganaPlugin", "leftBrackets": ["(", "（"], "rightBrackets": [")", "）"], "maxYomiganaLength": 8}],
-        "oovProviderPlugin": [{"class": "com.worksap.nlp.sudachi.RegexOovProvider", "oovPOS": pos, "leftId": 5, "rightId": 5, "cost": 3000, "regex": "[a-z]+", "maxLength": 32},
+        "oovProviderPlugin": [{"class": "com.worksap.nlp.sudachi.MeCabOovPlugin", "charDef": "char.def", "unkDef": "unk.def", "userPOS": "allow"},
+            {"class": "com.worksap.nlp.sudachi.RegexOovProvider", "oovPOS": pos, "leftId": 5, "rightId": 5, "cost": 3000, "regex": "[a-z]+", "maxLength": 32},
             {"class": "com.worksap.nlp.sudachi.SimpleOovPlugin", "oovPOS": pos, "leftId": 8, "rightId": 8, "cost": 6000}],
         "pathRewritePlugin": [{"class": "com.worksap.nlp.sudachi.JoinNumericPlugin", "enableNormalize": true},
             {"class": "com.worksap.nlp.sudachi.JoinKatakanaOovPlugin", "oovPOS": pos, "minLength": 3}],
